@@ -322,9 +322,21 @@ pub fn gen_case(t: &mut Tape) -> Case {
         src.push_str(mut_decl);
     }
     src.push_str("}\n");
-    if byval_mut {
+    // the trait may be deprecated: that is for those who use it, not for the impl that comes with it (the module denies `deprecated`)
+    let deprecated_trait = hygiene.is_none() && !attr_from_call && !recv_fragment && !self_fragment && t.chance(1, 6);
+    if byval_mut || deprecated_trait {
         let decl = src.split_off(trait_starts_at);
-        src.push_str("mod __lint {\n#![deny(unused_mut)]\nuse super::*;\n");
+        src.push_str("mod __lint {\n");
+        if byval_mut {
+            src.push_str("#![deny(unused_mut)]\n");
+        }
+        if deprecated_trait {
+            src.push_str("#![deny(deprecated)]\n");
+        }
+        src.push_str("use super::*;\n");
+        if deprecated_trait {
+            src.push_str("#[deprecated(note = \"use something else\")]\n");
+        }
         src.push_str(&decl);
         src.push_str("}\npub use __lint::*;\n");
     }
@@ -587,6 +599,9 @@ pub fn gen_case(t: &mut Tape) -> Case {
     }
     if byval_mut {
         classes.push("defaulted_method_with_mut_self_by_value_under_deny_unused_mut");
+    }
+    if deprecated_trait {
+        classes.push("deprecated_trait_under_deny_deprecated");
     }
     if recv_fragment {
         classes.push("receiver_type_from_a_macro_rules_ty_fragment");
